@@ -915,3 +915,19 @@ N('D2-automap-built-earlier-renamed', ['C09', 'C02'], 'index.py', '_IndexGOMixin
 
 B('F3-row-dtype-kind-compare', ['C07', 'C16'], 'type_blocks.py', 'TypeBlocks.append',
   'block.dtype != self._row_dtype', 'block.dtype.kind != self._row_dtype.kind', 'F3', 'TypeBlocks.append')
+
+# ---------------------------------------------------------------------------------- dtype accumulators (C07 / C20)
+B('DA-group-dtype-setdefault', ['C07', 'C20'], 'pivot.py', 'pivot_index_map',
+  '                if group in group_to_dtype:\n                    group_to_dtype[group] = resolve_dtype(group_to_dtype[group], dtype)\n                else:\n                    group_to_dtype[group] = dtype\n',
+  '                group_to_dtype.setdefault(group, dtype)\n', 'F1.dtype-accumulator-merged', 'pivot_index_map')
+B('DA-group-dtype-last-wins', ['C07', 'C20'], 'pivot.py', 'pivot_index_map',
+  '                if group in group_to_dtype:\n                    group_to_dtype[group] = resolve_dtype(group_to_dtype[group], dtype)\n                else:\n                    group_to_dtype[group] = dtype\n',
+  '                group_to_dtype[group] = dtype\n', 'F1.dtype-accumulator-merged', 'pivot_index_map')
+B('DA-unstack-dtype-reset-in-loop', ['C07', 'C20'], 'frame.py', 'Frame.pivot_unstack',
+  '                            row_idx = target_map[target]\n', '                            row_idx = target_map[target]\n                            dtype = dtype_src_col\n',
+  'F1.loop-dtype-carried', 'items')
+N('DA-group-dtype-get-merge', ['C07', 'C20'], 'pivot.py', 'pivot_index_map',
+  '                if group in group_to_dtype:\n                    group_to_dtype[group] = resolve_dtype(group_to_dtype[group], dtype)\n                else:\n                    group_to_dtype[group] = dtype\n',
+  '                if group not in group_to_dtype:\n                    group_to_dtype[group] = dtype\n                else:\n                    group_to_dtype[group] = resolve_dtype(group_to_dtype[group], dtype)\n')
+N('DA-unstack-dtype-self-merge', ['C07', 'C20'], 'frame.py', 'Frame.pivot_unstack',
+  '                            dtype = resolve_dtype(dtype_src_col, dtype_fill)\n', '                            dtype = resolve_dtype(dtype, dtype_fill)\n')
